@@ -177,7 +177,7 @@ def s_trash():
         st.tuples(st.just("advance"), st.sampled_from([0.35, 1.1, 6.0, 11.0])),
         st.tuples(st.just("session_shutdown")),
         st.tuples(st.just("renew")),
-        st.tuples(st.just("kill"), st.integers(0, 2), st.sampled_from(["close", "reset", "explicit"])),
+        st.tuples(st.just("kill"), st.integers(0, 2), st.sampled_from(["close", "reset"])),
         st.tuples(st.just("borrow_dead"), st.integers(0, 2)),
     )
     ev = st.tuples(st.integers(3, 7), st.sampled_from([11.0, 11.0, 6.0]), st.lists(tail, min_size=2, max_size=14)).map(
